@@ -1419,7 +1419,7 @@ def translate_function(fn, decls, defines_ok):
         ch = ["(ch : N)"] if reading else []
         rtype = "state * %s" % COQ_TYPE[tr.ret_kind] if tr.mode == "pair" else "state"
         text = "(* cat.c:%s-%s  %s *)\nDefinition %s %s : %s :=\n%s.\n" % (
-            first, last, d.get("type", {}).get("qualType", ""), gname,
+            first, last, d.get("type", {}).get("qualType", "").replace("*)", "* )"), gname,
             " ".join(["(D : desc)"] + binders + ch + ["(s : state)"]), rtype, ind(term))
         if tr.mode == "const":
             text += "Definition %s_status : Z := %s.\n" % (gname, tr.const_status)
